@@ -279,6 +279,9 @@ def run_case(args):
             want = (["grpc", "grpc_asyncio"] if grpc else []) + (["rest"] if rest else [])
             if not opt["ads"] and c.get("registry") != want:
                 res["violations"].append((f"{s}Client offers transports {c.get('registry')}, requested {want}", case, None))
+            for label, how in sorted((c.get("by_label") or {}).items()):
+                if (label in (c.get("registry") or [])) != (how == "registered") or (how != "registered" and how != "KeyError"):
+                    res["violations"].append((f"{s}Client.get_transport_class({label!r}): {how}; the client offers exactly {c.get('registry')}", case, None))
             if not opt["ads"] and c.get("default") != (want[0] if want else None):
                 res["violations"].append((f"{s}Client default transport {c.get('default')} != {want[0] if want else None}", case, None))
     # ---- T1 against Model/Render.v (default templates only)
